@@ -489,6 +489,47 @@ def asCodeOld (p : Prog) : Code :=
   let l3 := p.operations.foldl (fun ls o => codeLet ls (.call o.1 o.2)) l2
   ⟨p.inputs, 0, l3, if l3.length = 0 then none else some (l3.length - 1)⟩
 
+/-! ## printing of parametrised ops (`program._print_op`, funsor/ops/program.py:101-108)
+
+  An op instance is its class plus the current value of every parameter, in signature order
+  (`op.defaults`); values are kept as their printed text (`str(v)`).  The printed expression is evaluated
+  by python with POSITIONAL binding, trailing parameters taking the class defaults. -/
+
+structure OpClass where
+  name : String                              -- `type(op).__name__`
+  params : List (String × String)            -- parameter names with the class defaults `type(op)().defaults`
+  deriving DecidableEq, Repr
+
+structure OpInst where
+  cls : OpClass
+  vals : List String                         -- `op.defaults.values()`
+  deriving DecidableEq, Repr
+
+def OpInst.WF (o : OpInst) : Prop := o.vals.length = o.cls.params.length
+
+inductive Printed where
+  | ref (name : String)                      -- `repr(op)`: the registered default instance `ops.<name>`
+  | ctor (cls : String) (args : List String) -- `ops.<Class>(a1, …, an)`
+  deriving DecidableEq, Repr
+
+/-- `_print_op` on a parametrised op: all parameter values, positionally, unless they are the defaults. -/
+def printOp (o : OpInst) : Printed :=
+  if o.cls.params ≠ [] ∧ o.vals ≠ o.cls.params.map (·.2) then .ctor o.cls.name o.vals
+  else .ref o.cls.name
+
+/-- What python builds from the printed expression. -/
+def parsePrinted (c : OpClass) : Printed → Option OpInst
+  | .ref _ => some ⟨c, c.params.map (·.2)⟩
+  | .ctor _ args =>
+    if args.length ≤ c.params.length then some ⟨c, args ++ (c.params.drop args.length).map (·.2)⟩
+    else none                                -- TypeError: too many positional arguments
+
+/-- The "shortened" scheme: print only the values that differ from the defaults, still positionally. -/
+def printOmit (o : OpInst) : Printed :=
+  if o.cls.params ≠ [] ∧ o.vals ≠ o.cls.params.map (·.2) then
+    .ctor o.cls.name ((o.vals.zip (o.cls.params.map (·.2))).filterMap fun (v, d) => if v = d then none else some v)
+  else .ref o.cls.name
+
 /-! ## trace_function (funsor/ops/tracer.py:48-87)
 
   A trace is the list of `(result, op, args)` entries in execution order; values are identified by
